@@ -17,6 +17,12 @@ script = {
   'inherit':      [responder name, ...]  responders (of 'on_get' 'on_get_f' 'on_get_items') that the routed
                                       resource class INHERITS from a base class instead of defining itself
   'hooks_base':   [[kind, id], ...]   class-level hooks applied to that base class (outermost first)
+  'forms':        {responder name: 'object' | 'wrapped'}  the responder is additionally wrapped (outermost) by a
+                                      transparent decorator: a callable descriptor object / a plain function
+  'mw_arg', 'cors': how the middleware argument is spelled (list/tuple/iter/bare component) and whether
+                                      cors_enable is set - neither changes what is expected of the user's stack
+  comps[i]['lform']: how the lifespan handlers are provided (method/static/classmethod/instance attribute/
+                                      callable object) - a handler is a handler
             hooks.rst: a hook applied to a resource class applies to *all* responders of the class - inherited
             ones included.  So for a responder the order is: hooks_class (of the routed class), then - if the
             responder lives on the base class - hooks_base, then hooks_method (on_get), then the responder.
@@ -243,6 +249,15 @@ class _Interp:
             self.classes.add('responder.' + responder)
             if responder.startswith('on_'):
                 hooks = responder_hooks(script, responder)
+                form = (script.get('forms') or {}).get(responder)
+                if form:
+                    # the responder is wrapped by a third-party style decorator (callable descriptor object or
+                    # plain function wrapper); it is still the responder, hooks apply as usual
+                    self.classes.add('form.' + form)
+                    if script.get('hooks_class'):
+                        self.classes.add('form.%s.classhook' % form)
+                    if responder in script.get('inherit', ()) and script.get('hooks_class'):
+                        self.classes.add('form.%s.classhook.inherited' % form)
                 if case['kind'].startswith('m'):
                     mc = method_class(case['kind'].split(':')[1])
                     self.classes.add('method.' + mc)
